@@ -3,14 +3,9 @@ package engine
 import (
 	"fmt"
 	"io"
-	"regexp"
 	"strings"
 	"sync"
 	"unicode/utf8"
-)
-
-var (
-	quotedAtomEscapePattern = regexp.MustCompile(`[[:cntrl:]]|\\|'`)
 )
 
 var (
@@ -326,8 +321,20 @@ func needQuoted(a Atom) bool {
 	return err != nil || parsed != a
 }
 
+// quote writes s as a quoted token. Every rune which the lexer does not accept verbatim inside of single quotes
+// (isSingleQuotedCharacter) is written as an escape sequence so that the result can be read back.
 func quote(s string) string {
-	return fmt.Sprintf("'%s'", quotedAtomEscapePattern.ReplaceAllStringFunc(s, quotedIdentEscape))
+	var sb strings.Builder
+	_ = sb.WriteByte('\'')
+	for _, r := range s {
+		if isSingleQuotedCharacter(r) {
+			_, _ = sb.WriteRune(r)
+			continue
+		}
+		_, _ = sb.WriteString(quotedIdentEscape(string(r)))
+	}
+	_ = sb.WriteByte('\'')
+	return sb.String()
 }
 
 func quotedIdentEscape(s string) string {
